@@ -111,7 +111,7 @@ def run(ctx, rep, tier):
     asrc = ast.unparse(at)
     rep.check("self.match_contents.attach(action)" in asrc and "super().attach(action)" in asrc, "C16.c", "WaitMatch.attach", "forwards to the wrapped match and records its own copy", "WaitMatch.attach changed")
     init = ast.unparse(model.func("WaitMatch.__init__"))
-    rep.check("self.match_contents = sub_match" in init, "C16.c", "WaitMatch.__init__", "wraps the sub-match", "WaitMatch constructor changed")
+    rep.check(model.has("WaitMatch.__init__", "self.match_contents = sub_match"), "C16.c", "WaitMatch.__init__", "wraps the sub-match", "WaitMatch constructor changed")
 
 
 def _shared(ctx, rep, tier):
